@@ -95,8 +95,10 @@ def history_plan(rng, tier, levels, silent_streak=False, identity_changes=True, 
             # (async runs only) the caller cancels the first refresh from outside - before, between or
             # after its two exchanges - and tries again: the session must come out as if nothing had happened
             mine[0]["cancel_ns"] = rng.choice([501, 1_500_001, 3_000_001, 5_000_001])
-            opid += 1
-            mine.append({"id": opid, "s": s, "op": "refresh"})
+            if rng.random() < 0.5:
+                opid += 1
+                mine.append({"id": opid, "s": s, "op": "refresh"})
+            # (else: straight on to the requests - the first of them finishes what the refresh began)
         direct = len(mine) == 1 and "engine_id" not in sessions[s] and "via" not in mine[0] and not silent_streak and rng.random() < 0.15
         if direct:
             # the application never enters the session nor calls refresh(): the first operation has to run
